@@ -57,6 +57,8 @@ class Render:
         if k == 'var':
             return x[1]
         if k == 'bin':
+            if x[1] in ('gcd', 'lcm', 'max', 'min'):      # library functions written prefix
+                return '%s(%s, %s)' % (x[1], self.e(x[2]), self.e(x[3]))
             return '(%s %s %s)' % (self.e(x[2]), x[1], self.e(x[3]))
         if k == 'neg':
             return '(- %s)' % self.e(x[1])
@@ -365,6 +367,20 @@ class Eval:
                 if b < 0:
                     raise OutOfSubset('negative modulus')
                 return a % b
+            if op in ('gcd', 'lcm'):
+                import math
+                if self.it == 'MI' and (a == MIN64 or b == MIN64):
+                    raise OutOfSubset('magnitude of the most negative value')
+                g = math.gcd(a, b)             # non-negative, gcd(0, 0) = 0
+                if op == 'gcd':
+                    return self.num(g)
+                if g == 0:
+                    raise OutOfSubset('lcm(0, 0)')
+                return self.num(abs(a // g * b))
+            if op == 'max':
+                return max(a, b)
+            if op == 'min':
+                return min(a, b)
             if op == '<':
                 return a < b
             if op == '<=':
